@@ -1,7 +1,9 @@
 import J5V.Walker.ParserLink
+import J5V.Walker.PP.Entity
 import J5V.Walker.WalkCex
 import J5V.Walker.TermCheck
 import J5V.Walker.Facts
+import J5V.Walker.OrderLink
 /-!
 # C07 (walker part) — the schema-driven BCL walker `j5s text → SourceFile`
 
@@ -193,5 +195,86 @@ example : ∃ f, parseFile asciiCls (ofAscii "object Foo {\n required {\n }\n}\n
 /-- … and that position is inside the file -/
 example : InFileLC (ofAscii "object Foo {\n required {\n }\n}\n") ⟨1, 1⟩ ∧
     InFileLC (ofAscii "object Foo {\n required {\n }\n}\n") ⟨1, 8⟩ := by decide +kernel
+
+
+/-! ## Acceptance of the documented language: print, then parse -/
+
+/-- **C07W, print / parse.** For every abstract j5s file `ast` of the generator's syntax (`J5V.Compile.SrcFile`, the
+type the compile theorems C02 / C07 / C13 / C17 start from) inside the fragment `supported` — package, imports, objects,
+oneofs and enums with fields of all 15 kinds, every format and qualifier form, `!` / `?` marks, flatten, arrays and maps,
+inline and nested schemas, every rule kind with literals of the right kind, services and methods, topics, entities with
+keys, data, statuses, events, commands, summaries and query — walking the syntax tree `toBcl ast` of the printed text over
+the stub of `filename` succeeds and returns EXACTLY the message `toMsg filename ast` the file denotes (every touched flag
+included). `toBcl` / `toMsg` are written independently of the walker (`Walker/Print.lean`) and tied to the real printer
+and parser by the stream `walker.print` (the parse tree of the printed text, erased, equals `toBcl ast`; the real
+parser's message equals `toMsg`). Proof: exact symbolic execution of the interpreter by induction over the syntax
+(`Walker/PP/*`). -/
+theorem C07W_print_parse (filename : Str) (ast : J5V.Compile.SrcFile) (h : supported ast = true) :
+    walkSchema j5Env (toBcl ast) (stub j5Env filename) = .ok (toMsg filename ast) :=
+  J5V.Walker.C07W_print_parse filename ast h
+
+/-- a file inside the fragment: `foo/v1/a.j5s` with `object Foo { field a ! string; field b integer:INT32;
+field c array:object:Bar }` and `enum Kind { A B }` -/
+def demoAst : J5V.Compile.SrcFile :=
+  .j5s [102,111,111,47,118,49,47,97,46,106,53,115] [] [
+    .object (.mk [70,111,111] [
+      .mk [97] true false (.string [] false),
+      .mk [98] false false (.integer .int32 [] false),
+      .mk [99] false false (.array (.objectRef [] [66,97,114] false []) [])] [] none),
+    .enum ⟨[75,105,110,100], [], [[65], [66]]⟩] [102,111,111,46,118,49]
+example : supported demoAst = true := by
+  unfold supported; rw [j5Env_nf]; decide +kernel
+
+/-! ## Error spans are not reversed
+
+The spans the walker puts on an error are spans of single nodes, POINT spans (`walkTags`: end of the type
+reference / of a tag), the zero span (`!` / `?` marks) and HULLS `⟨first.span.start, last.span.end_⟩` of a run
+of tags (`finishTags`), of qualifiers (`walkQualifiers`) or of the `remaining` values of a scalar split
+(`setContainerFromScalar`: elements of ONE array value in their source order — `rightToLeft` reverses twice —
+or `strings.Split` pieces of ONE string, which all carry that string's span). `BodyOrdered body`
+(`J5V/Walker/OrderDefs.lean`, a structural predicate over the statements at any depth) is what makes all of
+them `start ≤ end_`: every node span the walker reads (statement, key / type idents, tags and qualifiers with
+their reference idents, values incl. nested array elements, descriptions) has `start ≤ end_`, and the tags of
+a header, its qualifiers, and the elements of every array value are in SOURCE ORDER (each one's `span.end_ ≤`
+every later one's `span.start`). Proof: the walk re-verified for an arbitrary set `S` of spans that contains
+the node spans, the point spans and the hulls of all sublists of the three kinds of runs
+(`walkSchema_specS`, `J5V/Walker/Order{Attr,Walk,Main}.lean`), instantiated with `S sp := sp.start ≤ sp.end_`. -/
+
+/-- **General form.** For a well-formed environment, a well-typed message and statements that are
+`BodyOrdered` (and whose block type references have an ident, as in `C07W_error_positions`), the span of an
+error of the walk is not reversed: `sp.start ≤ sp.end_` in the lexicographic order on (line, column). -/
+theorem C07W_error_span_ordered {env : Env} (hwf : env.WF = true) {msg : Node} (hmsg : TreeOK env msg)
+    (body : List Statement) (hb : bodyTypesOK body = true) (hord : BodyOrdered body) {e : WErr}
+    (h : walkSchema env body msg = .err e) (hroot : newRootSchemaWalker env ≠ .err e) :
+    ∃ sp, e.pos = some sp ∧ sp.start ≤ sp.end_ :=
+  C07W_walk_error_span_ordered hwf hmsg body hb hord h hroot
+
+/-- **the parser's trees are `BodyOrdered`** (both modes, every classifier, every source): the parser reads
+the tokens in source order (`WInv.ordered`), so consecutive tags, qualifiers and array elements are in
+source order, and every node span has `start ≤ end_` (`J5V/Bcl/OrderProofs.lean`) -/
+theorem C07W_parse_body_ordered (cls : Cls) (src : List Rune) (ff : Bool) (f : File)
+    (h : parseFile cls src ff = .tree f) : BodyOrdered f.body :=
+  J5V.Bcl.parseFile_bodyOrdered cls src ff f h
+
+/-- **Source-level form for j5s files.** Every error the walk of a parsed file returns carries a span whose
+two ends lie inside the file (`C07W_parse_error_positions`) and whose start is not after its end — the three
+conditions of "inside the file" of the correspondence protocol (`0 ≤ line < lineCount`,
+`0 ≤ col ≤ runeLen(line)`, `start ≤ end`), for every source text, parser mode and file name. -/
+theorem C07W_parse_error_span_ordered (cls : Cls) (src : List Rune) (ff : Bool) (f : File) (filename : Str)
+    (h : parseFile cls src ff = .tree f) {e : WErr}
+    (he : walkSchema j5Env f.body (stub j5Env filename) = .err e) :
+    ∃ sp, e.pos = some sp ∧ InFileLC src sp.start ∧ InFileLC src sp.end_ ∧ sp.start ≤ sp.end_ :=
+  parse_walk_error_span_ordered cls src ff f filename h he
+
+/-- non-vacuity of `BodyOrdered` + the `.err` branch, on a HULL span: `object Foo Bar Baz { }` parses, its
+statements are `BodyOrdered`, and the walk rejects the two extra tags `Bar Baz` at the hull of their spans,
+line 0, columns 11–17 (evaluated by the kernel) -/
+example : ∃ f, parseFile asciiCls (ofAscii "object Foo Bar Baz {\n}\n") true = .tree f ∧
+    BodyOrdered f.body ∧ bodyTypesOK f.body = true ∧
+    (walkSchema j5Env f.body (stub j5Env [97])).errPos = some ⟨⟨0, 11⟩, ⟨0, 17⟩⟩ := by
+  obtain ⟨f, hf, he⟩ : ∃ f, parseFile asciiCls (ofAscii "object Foo Bar Baz {\n}\n") true = .tree f ∧
+      (walkSchema j5Env f.body (stub j5Env [97])).errPos = some ⟨⟨0, 11⟩, ⟨0, 17⟩⟩ :=
+    tree_of_match (by rw [j5Env_nf]; decide +kernel)
+  exact ⟨f, hf, C07W_parse_body_ordered _ _ _ f hf, C07W_parse_types_ok _ _ _ f hf, he⟩
 
 end J5V.Props.C07Walker
